@@ -10,7 +10,33 @@ def mk_engine(chk):
     e.max_unroll = 8
     e.feas_timeout_ms = 300
     e.loop_specs = {}
+
+    # contextvars.ContextVar (module-level state of tys/ty.py and friends): a cell with get / set / reset
+    def context_var(it, a, k):
+        from pyvc import SObj, ClassVal, Builtin
+        cell = {"v": k.get("default", _MISSING)}
+        o = SObj(ClassVal("ContextVar", builtin=True), {"name": a[0] if a else None})
+
+        def get(*d):
+            if cell["v"] is _MISSING:
+                if d:
+                    return d[0]
+                it.throw("LookupError", "context variable has no value")
+            return cell["v"]
+
+        def set_(v):
+            old = cell["v"]
+            cell["v"] = v
+            return ("token", old)
+        o.fields["get"] = Builtin("ContextVar.get", get)
+        o.fields["set"] = Builtin("ContextVar.set", set_)
+        o.fields["reset"] = Builtin("ContextVar.reset", lambda tok: cell.__setitem__("v", tok[1]))
+        return o
+    e.ext_models.setdefault("contextvars.ContextVar", context_var)
     return e
+
+
+_MISSING = object()
 
 
 def zbool(v):
